@@ -161,6 +161,13 @@ def run(ctx):
             p = os.path.join(ind, "c%d_%s_%d_%d.p21" % (bi, op, i, pp))
             open(p, "w", encoding="latin-1").write(new)
             charjobs.append(("char:%s%s:%d:%d" % (op, "" if op != "ins" else repr(CHAR_INS[pp - 1]), bi, i), p, drv))
+    # ... and every single-token edit (token deleted, doubled, swapped with its neighbour, a punctuation token inserted)
+    for bi, txt in enumerate(rich[:1 if ctx.quick else 5]):
+        st = txt.index("DATA;") + 6
+        for op, i, pp, new in tokmut.p21_token_mutants(txt, st, txt.index("ENDSEC;", st), ctx.work):
+            p = os.path.join(ind, "k%d_%s_%d_%d.p21" % (bi, op, i, pp))
+            open(p, "w", encoding="latin-1").write(new)
+            charjobs.append(("token:%s%s:%d:%d" % (op, "" if op != "ins" else repr(tokmut.P21_INS[pp - 1]), bi, i), p, drv))
     env = dict(os.environ, **build.ASAN_ENV)
 
     def one(j, limit=None):
@@ -283,7 +290,7 @@ def run(ctx):
         ev = rep["ev"]
         tag, frame, err = meta[rep["line"] - 1]
         what = "sanitizer" if ev["sanitizer"] else "signal" if ev["signalled"] else "timeout" if ev["timedout"] else "status"
-        origin = ":".join(tag.split(":")[:2]) if tag.startswith(("boundary", "fault", "char")) else tag.split(":")[0]
+        origin = ":".join(tag.split(":")[:2]) if tag.startswith(("boundary", "fault", "char", "token")) else tag.split(":")[0]
         try:
             content = open(paths[tag], "rb").read()[-1500:].decode("latin-1")
         except (OSError, KeyError):
@@ -292,7 +299,7 @@ def run(ctx):
                       "%s: reading/writing %s (rc %s, %.1fs) %s" % (what, tag, ev["rc"], ev["secs"], frame),
                       {"input_tag": tag, "input_tail": content, "stderr_tail": err})
     shutil.rmtree(wd, ignore_errors=True)
-    kindsn = ("boundary", "fault", "valid", "truncate", "mutate", "char")
+    kindsn = ("boundary", "fault", "valid", "truncate", "mutate", "char", "token")
     cov = {"states": d.distinct, "evaluations": len(inputs), "distinct_nontrivial": len(inputs), "unsafe_runs": len(got),
            "inputs_by_origin": {k: sum(1 for t, _, _ in inputs if t.startswith(k)) for k in kindsn},
            "short_tokens_exhaustive": ntok, "token_batches": len(tokruns),
